@@ -887,6 +887,35 @@ func streamCancel(c *Ctx) {
 					}})
 				}
 			}
+			// K24 (round 10, C15-mm): the server has finished the call with an error of its own and
+			// the rest of the response has arrived; the client cancels between two Receives: the
+			// Receive that fails afterwards reports canceled, not the outcome it never asked for.
+			if h2 {
+				scs = append(scs, scenario{"cancel-second-op", "handler sends one message and fails with resource_exhausted; the client receives the message, cancels, receives again, " + tag, func() (string, bool) {
+					h := connect.NewServerStreamHandler("/s/m", func(ctx context.Context, r *connect.Request[[]byte], s *connect.ServerStream[[]byte]) error {
+						_ = s.Send(&[]byte{1})
+						return connect.NewError(connect.CodeResourceExhausted, errors.New("quota"))
+					}, connect.WithCodec(rawCodec{"raw"}))
+					srv := startServer(h, true)
+					defer srv.Close()
+					cl := connect.NewClient[[]byte, []byte](srv.Client(), srv.URL+"/s/m", protoOpts(proto)...)
+					ctx, cancel := context.WithCancel(context.Background())
+					defer cancel()
+					st, err := cl.CallServerStream(ctx, connect.NewRequest(&[]byte{1}))
+					if err != nil {
+						return "call: " + err.Error(), false
+					}
+					if !st.Receive() {
+						return "first receive: " + codeName(st.Err()), false
+					}
+					time.Sleep(100 * time.Millisecond) // the rest of the response is there by now
+					cancel()
+					more := st.Receive()
+					code := codeName(st.Err())
+					_ = st.Close()
+					return fmt.Sprintf("second receive delivered=%v err=%s", more, code), !more && code == "canceled"
+				}})
+			}
 			// K3: deadline passes while waiting for the response headers
 			for _, kind := range []string{"unary", "server"} {
 				kind := kind
@@ -1810,7 +1839,9 @@ func streamLife(c *Ctx) {
 						closeErr = st.CloseResponse()
 					}
 					closes := atomic.LoadInt32(&cc.closes)
-					return fmt.Sprintf("outcome=%s close=%s body closed %d time(s)", codeName(outcome), codeName(closeErr), closes), codeName(outcome) == code.String() && closeErr == nil && closes >= 1
+					// (what CloseResponse returns when the transport has torn the stream down under the
+					// drain is the call's outcome again, or nil: either way the body must have been closed)
+					return fmt.Sprintf("outcome=%s close=%s body closed %d time(s)", codeName(outcome), codeName(closeErr), closes), codeName(outcome) == code.String() && closes >= 1
 				}})
 			}
 		}
@@ -1929,6 +1960,29 @@ func streamLife(c *Ctx) {
 			}
 			bodies, closes := atomic.LoadInt32(&cc.bodies), atomic.LoadInt32(&cc.closes)
 			return fmt.Sprintf("call=%s responses opened=%d closed=%d", codeName(err), bodies, closes), err != nil && closes >= bodies
+		}})
+		// L11 (round 10, C14-mm): a handler whose outcome is an error that wraps io.EOF - the
+		// common `if _, err := stream.Receive(); err != nil { return err }` at the end of the
+		// request - has failed; the client's Receive reports that outcome, not a clean end.
+		scs = append(scs, scenario{"life-outcome-lost", "bidi handler returns the EOF-wrapping error its Receive gave it, " + proto, func() (string, bool) {
+			h := connect.NewBidiStreamHandler("/s/m", func(ctx context.Context, s *connect.BidiStream[[]byte, []byte]) error {
+				for {
+					if _, err := s.Receive(); err != nil {
+						return err
+					}
+				}
+			}, connect.WithCodec(rawCodec{"raw"}))
+			srv := startServer(h, true)
+			defer srv.Close()
+			cl := connect.NewClient[[]byte, []byte](srv.Client(), srv.URL+"/s/m", protoOpts(proto)...)
+			s := cl.CallBidiStream(context.Background())
+			_ = s.Send(&[]byte{1})
+			_ = s.CloseRequest()
+			_, rerr := s.Receive()
+			_ = s.CloseResponse()
+			// (the handler's error travels as code and text: what arrives does not wrap io.EOF, which
+			// is how the client tells it from the clean end of the stream)
+			return "receive=" + codeName(rerr), rerr != nil && connect.CodeOf(rerr) == connect.CodeUnknown && !errors.Is(rerr, io.EOF)
 		}})
 		// L1b: small Sends after the handler finished eventually fail with an EOF-wrapping error
 		scs = append(scs, scenario{"life-send-after-finish", "small Sends after the handler finished, " + proto, func() (string, bool) {
